@@ -6,10 +6,20 @@
 //!  * monitor `WF` on the recorded `MatchResult` (hypothesis of the Coq theorems);
 //!  * emit the correspondence case `root_parse tokens match == real tree` and
 //!    `append`/`wrap` cases on operand pairs taken from the recorded match.
+//!
+//! Every input runs under a CPU-time watchdog (`par_run_watched`): a parse that does not come back is a
+//! concrete failing input ("neither a tree nor a parse error"), not a killed harness.
+//! Token streams also come from *templated* files (placeholder templater; values that render to several
+//! tokens, cut out of real statements so that tokens repeat inside one templated slice).
+//! `sqv c02 --flag-cases` emits, for truncated / element-deleted / grammar-derived cut statements, the
+//! root match of the real parser as a case for the Gallina interpreter of the engine (Corr/C02Pem.v).
 use std::collections::{HashMap, HashSet};
+use std::sync::atomic::{AtomicBool, AtomicUsize, Ordering};
+use std::sync::{Arc, Mutex};
 
 use serde_json::{Value, json};
-use sqruff_lib::core::config::FluffConfig;
+use sqruff_lib::core::config::{FluffConfig, Value as CfgValue};
+use sqruff_lib::core::linter::core::Linter;
 use sqruff_lib_core::dialects::syntax::SyntaxKind;
 use sqruff_lib_core::parser::lexer::StringOrTemplate;
 use sqruff_lib_core::parser::context::ParseContext;
@@ -19,7 +29,13 @@ use sqruff_lib_core::parser::parser::Parser;
 use sqruff_lib_core::parser::segments::base::{ErasedSegment, Tables};
 use sqruff_lib_core::parser::segments::file::verif_hook;
 
+use crate::c04::Templ;
 use crate::common::*;
+
+// the grammar-driven sentence generator of C03 (a private sub-module there; compiled here a second time)
+#[allow(dead_code)]
+#[path = "c03g.rs"]
+mod c03g;
 
 pub fn kind_n(k: SyntaxKind) -> usize {
     k as usize
@@ -158,13 +174,56 @@ pub struct Item {
     pub sql: String,
 }
 
+/// An input of the main run: a plain string, or the source of a placeholder-templated file with its parameter values.
+pub struct Work {
+    pub it: Item,
+    pub templ: Option<Templ>,
+    /// `Some(dense)`: not an input itself but a well-formed text whose cut variants (`cuts_of`) are the inputs; they are
+    /// derived by the worker, because deriving them parses the text and every parse has to run under the watchdog
+    pub expand: Option<bool>,
+}
+impl Work {
+    fn plain(it: Item) -> Work {
+        Work { it, templ: None, expand: None }
+    }
+    fn input_json(&self) -> Value {
+        match &self.templ {
+            None => json!({"dialect": self.it.dialect, "sql": self.it.sql}),
+            Some(t) => json!({"dialect": self.it.dialect, "sql": self.it.sql, "templ": {"style": t.style, "regex": t.regex, "params": t.params}}),
+        }
+    }
+}
+
 pub struct Ctx {
     cfgs: HashMap<String, FluffConfig>,
     orcs: HashMap<String, Oracle>,
+    templ_base: Option<FluffConfig>,
 }
 impl Ctx {
     pub fn new() -> Ctx {
-        Ctx { cfgs: HashMap::new(), orcs: HashMap::new() }
+        Ctx { cfgs: HashMap::new(), orcs: HashMap::new(), templ_base: None }
+    }
+    /// Configuration for the placeholder templater with the parameter values of `t`, every value set through the
+    /// configuration object (so that multi-line / padded / comment-sign values arrive exactly as intended). Only the
+    /// templater reads it; lexer and parser come from the dialect's own configuration.
+    pub fn templ_cfg(&mut self, t: &Templ) -> FluffConfig {
+        let base = self.templ_base.get_or_insert_with(|| {
+            FluffConfig::from_source("[sqruff]\ndialect = ansi\ntemplater = placeholder\n\n[sqruff:templater:placeholder]\nparam_style = colon\n", None)
+        });
+        let mut cfg = base.clone();
+        if let Some(m) = cfg.raw.get_mut("templater").and_then(|x| x.as_map_mut()).and_then(|x| x.get_mut("placeholder")).and_then(|x| x.as_map_mut()) {
+            m.remove("param_style");
+            match &t.regex {
+                Some(r) => m.insert("param_regex".into(), CfgValue::String(r.as_str().into())),
+                None => m.insert("param_style".into(), CfgValue::String(t.style.as_str().into())),
+            };
+            for (k, v) in &t.params {
+                if k != "param_style" && k != "param_regex" {
+                    m.insert(k.clone(), CfgValue::String(v.as_str().into()));
+                }
+            }
+        }
+        cfg
     }
     pub fn cfg(&mut self, dialect: &str) -> &FluffConfig {
         self.cfgs
@@ -608,20 +667,97 @@ pub fn lex_and_parse(cfg: &FluffConfig, tables: &Tables, sql: &str) -> Result<Pa
     Ok(Parsed { tokens, lex_errors, root, result })
 }
 
-fn run_one(cx: &mut Ctx, it: &Item, out: &mut Buf) {
-    let input = json!({"dialect": it.dialect, "sql": it.sql});
+/// The same for a templated file: `tcfg` configures the placeholder templater, the rendered file is lexed by the
+/// dialect's lexer (`StringOrTemplate::Template`). Returns the rendered text as well.
+pub fn lex_and_parse_templ(cfg: &FluffConfig, tcfg: &FluffConfig, tables: &Tables, sql: &str) -> Result<(Parsed, String), String> {
+    let templater = catch(|| Linter::get_templater(tcfg))?;
+    let tf = catch(|| templater.process(sql, "c02.sql", tcfg, &None)).and_then(|r| r.map_err(|e| format!("templater: {:?}", e)))?;
+    let rendered = tf.templated().to_string();
+    let (tokens, lex_errors) = catch(|| cfg.get_dialect().lexer().lex(tables, StringOrTemplate::Template(tf)))
+        .and_then(|r| r.map_err(|e| format!("{:?}", e)))
+        .map(|(t, errs)| (t, errs.len()))?;
+    let parser: Parser = cfg.into();
+    let _ = verif_hook::take();
+    let result = catch(|| parser.parse(tables, &tokens, None)).map(|r| match r {
+        Ok(t) => t,
+        Err(_) => None,
+    });
+    let root = verif_hook::take();
+    Ok((Parsed { tokens, lex_errors, root, result }, rendered))
+}
+
+/// kinds and raws of a tree in pre-order (no ids, no positions)
+fn shape(t: &ErasedSegment, out: &mut String) {
+    if t.segments().is_empty() {
+        out.push_str(&format!("[{:?}:{}]", t.get_type(), t.raw()));
+    } else {
+        out.push_str(&format!("{:?}(", t.get_type()));
+        for c in t.segments() {
+            shape(c, out);
+        }
+        out.push(')');
+    }
+}
+
+static RUN_SEED: std::sync::atomic::AtomicU64 = std::sync::atomic::AtomicU64::new(1);
+
+/// One unit of work: an input, or a text to be cut into inputs. `announce` is told each input before it is parsed.
+fn run_one(cx: &mut Ctx, w: &Work, out: &mut Buf, announce: &mut dyn FnMut(&Work)) {
+    match w.expand {
+        None => {
+            announce(w);
+            run_input(cx, w, out)
+        }
+        Some(dense) => {
+            announce(w);
+            let cfg = cx.cfg(&w.it.dialect).clone();
+            let mut rng = Rng::new(RUN_SEED.load(Ordering::Relaxed) ^ u64::from_str_radix(&short_hash(&w.it.sql), 16).unwrap_or(7) ^ short_hash(&w.it.dialect).len() as u64);
+            out.count("texts_cut", 1);
+            for (cls, sql) in cuts_of(&cfg, &w.it.sql, &mut rng, dense) {
+                let v = Work::plain(Item { cls, dialect: w.it.dialect.clone(), sql });
+                announce(&v);
+                run_input(cx, &v, out);
+            }
+        }
+    }
+}
+
+fn run_input(cx: &mut Ctx, w: &Work, out: &mut Buf) {
+    let it = &w.it;
+    let input = w.input_json();
+    let tcfg = w.templ.as_ref().map(|t| cx.templ_cfg(t));
     let (cfg, orc) = cx.parts(&it.dialect);
     let tables = Tables::default();
     out.count("inputs", 1);
-    let p = match lex_and_parse(cfg, &tables, &it.sql) {
+    let lexed = match &tcfg {
+        None => lex_and_parse(cfg, &tables, &it.sql).map(|p| (p, it.sql.clone())),
+        Some(tcfg) => lex_and_parse_templ(cfg, tcfg, &tables, &it.sql),
+    };
+    let (p, text_in) = match lexed {
         Ok(p) => p,
         Err(msg) => {
-            // the lexer itself failed: outside C02 (C01/C03), counted
-            out.count("lexer_failed", 1);
-            let _ = msg;
+            // the templater or the lexer itself failed: outside C02 (C01/C03/C15), counted
+            out.count(if msg.starts_with("templater") { "templater_failed" } else { "lexer_failed" }, 1);
             return;
         }
     };
+    if w.templ.is_some() {
+        out.count("templated_inputs", 1);
+        // token streams in which several tokens share one source position (lexed out of one templated slice)
+        let mut seen: HashMap<(usize, usize), usize> = HashMap::new();
+        for t in p.tokens.iter().filter(|t| t.is_code()) {
+            if let Some(pm) = t.get_position_marker() {
+                *seen.entry((pm.source_slice.start, pm.source_slice.end)).or_default() += 1;
+            }
+        }
+        if seen.values().any(|n| *n >= 2) {
+            out.count("templated_inputs_with_a_multi_token_slice", 1);
+        }
+        let mut rep: HashSet<(usize, usize, String)> = HashSet::new();
+        if p.tokens.iter().filter(|t| t.is_code()).any(|t| t.get_position_marker().map_or(false, |pm| !rep.insert((pm.source_slice.start, pm.source_slice.end, t.raw().to_string())))) {
+            out.count("templated_inputs_with_a_repeated_token_in_one_slice", 1);
+        }
+    }
     if p.lex_errors > 0 {
         out.count("inputs_with_lex_errors", 1);
     }
@@ -638,7 +774,7 @@ fn run_one(cx: &mut Ctx, it: &Item, out: &mut Buf) {
         tokens.iter().all(|t| t.segments().is_empty() && !is_ins_meta_kind(t.get_type())),
         json!({"input": input}),
     );
-    let key_base = format!("{}:{}", it.dialect, short_hash(&it.sql));
+    let key_base = format!("{}:{}", it.dialect, if w.templ.is_some() { short_hash(&input.to_string()) } else { short_hash(&it.sql) });
 
     // ---- direct observation of the property
     let (cls_res, exp_g): (&str, String) = match &p.result {
@@ -696,7 +832,7 @@ fn run_one(cx: &mut Ctx, it: &Item, out: &mut Buf) {
                 let text: String = tokens.iter().map(|t| t.raw().as_str()).collect();
                 if tree.raw().as_str() != text {
                     why = "tree text differs from the token text".into();
-                } else if p.lex_errors == 0 && text != it.sql {
+                } else if p.lex_errors == 0 && text != text_in {
                     // lexer lossless-ness is C01; only counted here
                     out.count("token_text_differs_from_input_without_lex_error", 1);
                 }
@@ -744,6 +880,35 @@ fn run_one(cx: &mut Ctx, it: &Item, out: &mut Buf) {
                 out.count("leaves_with_lexer_kind_checked_against_terminals", asked);
                 out.count("unmatched_tokens_under_anything_exempt", exempt);
                 out.direct(it.cls, bad.is_empty(), &bad_key, &bad, input.clone());
+            }
+            // a templated stream whose tokens are those of its rendered text (same raws, kinds, code flags) must parse
+            // like the rendered text: the grammar sees tokens, not positions in the source file
+            if w.templ.is_some() {
+                let tables2 = Tables::default();
+                if let Ok(Parsed { tokens: t2, result: Ok(Some(tree2)), .. }) = lex_and_parse(cfg, &tables2, &text_in) {
+                    let same_tokens = t2.len() == tokens.len() && t2.iter().zip(tokens.iter()).all(|(a, b)| a.raw() == b.raw() && a.get_type() == b.get_type() && a.is_code() == b.is_code());
+                    if same_tokens {
+                        let (mut a, mut b) = (String::new(), String::new());
+                        shape(tree, &mut a);
+                        shape(&tree2, &mut b);
+                        out.hyp("templated_stream_parses_like_its_rendered_text", "diagnostic", a == b, json!({"input": input, "rendered": text_in}));
+                        // second sentence, with the parse of the identical token sequence as the reference for what the
+                        // grammar can match: a code token that is unparsable there must not be accepted silently here
+                        let (mut o1, mut o2) = (HashMap::new(), HashMap::new());
+                        outside_unparsable(tree, &mut vec![], &mut o1);
+                        outside_unparsable(&tree2, &mut vec![], &mut o2);
+                        let kept = (0..tokens.len()).find(|&i| tokens[i].is_code() && o1.contains_key(&tokens[i].id()) && !o2.contains_key(&t2[i].id()));
+                        let msg = kept.map_or(String::new(), |i| {
+                            format!(
+                                "token {} {:?} is outside every unparsable node in the tree of the templated stream, but inside one when the identical token sequence (the rendered text {:?}) is parsed: the same tokens, yet text the grammar cannot match was accepted",
+                                i, tokens[i].raw(), trunc(&text_in, 200)
+                            )
+                        });
+                        out.direct(it.cls, kept.is_none(), &format!("c02-templated-stream-accepts-unmatched:{}", key_base), &msg, input.clone());
+                    } else {
+                        out.count("templated_tokens_differ_from_tokens_of_rendered_text", 1);
+                    }
+                }
             }
             // where the unparsable sections were produced (coverage of the greedy paths of the engine)
             let mut parents = vec![];
@@ -793,9 +958,11 @@ fn run_one(cx: &mut Ctx, it: &Item, out: &mut Buf) {
     let grammar_panicked = p.result.is_err() && p.root.is_none() && si != ei;
     let limit = 260;
     // thorough tier: every other input is replayed through Coq (all are observed directly)
-    let sampled = if it.cls.starts_with("gap-junk") {
+    let sampled = if it.cls.starts_with("gap-junk") || matches!(it.cls, "truncation" | "token-deleted" | "element-deleted") {
         // observed directly on every input; one in 24 (thorough: 120) is also replayed through the Gallina root_parse
         u64::from_str_radix(&short_hash(&it.sql)[..6], 16).unwrap_or(0) % (if thorough_tier() { 120 } else { 24 }) == 0
+    } else if it.cls.starts_with("templated") {
+        u64::from_str_radix(&short_hash(&it.sql)[..6], 16).unwrap_or(0) % (if thorough_tier() { 30 } else { 6 }) == 0
     } else {
         !thorough_tier() || short_hash(&it.sql).as_bytes()[10] % 2 == 0
     };
@@ -810,7 +977,7 @@ fn run_one(cx: &mut Ctx, it: &Item, out: &mut Buf) {
     }
 
     // ---- append / wrap on operand pairs taken from the recorded match
-    let do_ops = (args_ops_all() || short_hash(&it.sql).as_bytes()[11] % 6 == 0) && (!it.cls.starts_with("gap-junk") || sampled);
+    let do_ops = (args_ops_all() || short_hash(&it.sql).as_bytes()[11] % 6 == 0) && (!(it.cls.starts_with("gap-junk") || it.cls.starts_with("templated") || matches!(it.cls, "truncation" | "token-deleted" | "element-deleted")) || sampled);
     if let (Some(m), true) = (root_mr, do_ops) {
         let mut ops = vec![];
         collect_ops(m, &mut ops, 2);
@@ -1036,23 +1203,560 @@ pub fn gap_items(rng: &mut Rng, thorough: bool) -> Vec<Item> {
     items
 }
 
-pub fn main(args: &Args) {
-    silence_panics();
+// ---------------------------------------------------------------- truncated / element-deleted statements
+/// Small statements whose clauses have required elements behind their first token (select lists, set clauses,
+/// conditions, sub-selects in every position); cut under every dialect.
+const CUT_BASES: &[&str] = &[
+    "SELECT a, b FROM t WHERE a = 1\n",
+    "SELECT DISTINCT a FROM t\n",
+    "SELECT a FROM t UNION SELECT b FROM u\n",
+    "SELECT a FROM t WHERE x IN (SELECT b FROM u)\n",
+    "SELECT a FROM (SELECT b FROM u) AS x\n",
+    "SELECT a, (SELECT b FROM u) FROM t\n",
+    "SELECT a FROM t WHERE EXISTS (SELECT 1 FROM u)\n",
+    "INSERT INTO t SELECT a FROM u\n",
+    "CREATE VIEW v AS SELECT a FROM t\n",
+    "CREATE TABLE t AS SELECT a FROM u\n",
+    "SELECT a FROM t ORDER BY a LIMIT 1\n",
+    "SELECT a FROM t GROUP BY a HAVING COUNT(*) > 1\n",
+    "SELECT a FROM t JOIN u ON t.x = u.x\n",
+    "SELECT a FROM t WHERE a BETWEEN 1 AND 2\n",
+    "SELECT CAST(a AS int), f(b) FROM t\n",
+    "UPDATE t SET a = 1 WHERE b = 2\n",
+    "DELETE FROM t WHERE a = 1\n",
+    "SELECT a FROM t;\nSELECT b FROM u;\n",
+];
+
+/// Token ranges `[i, j)` covered by runs of sibling children of every node of `tree` (both ends on a child that
+/// holds code): deleting such a run removes whole grammar elements - one element, a list, a clause body.
+fn sibling_runs(tree: &ErasedSegment, pos: &HashMap<u32, usize>, rng: &mut Rng, per_node: usize, out: &mut Vec<(usize, usize)>) {
+    let ch = tree.segments();
+    if ch.is_empty() {
+        return;
+    }
+    // (first token index, last token index + 1) of the children that hold a code token
+    let mut spans: Vec<(usize, usize)> = vec![];
+    for c in ch {
+        let leaves = if c.segments().is_empty() { vec![c.clone()] } else { c.get_raw_segments() };
+        let idx: Vec<usize> = leaves.iter().filter_map(|l| pos.get(&l.id()).copied()).collect();
+        let has_code = leaves.iter().any(|l| l.is_code() && pos.contains_key(&l.id()));
+        if let (true, Some(a), Some(b)) = (has_code, idx.iter().min(), idx.iter().max()) {
+            spans.push((*a, *b + 1));
+        }
+    }
+    let mut runs = vec![];
+    for i in 0..spans.len() {
+        for j in i..spans.len() {
+            if !(i == 0 && j + 1 == spans.len()) {
+                runs.push((spans[i].0, spans[j].1));
+            }
+        }
+    }
+    if runs.len() > per_node {
+        rng.shuffle(&mut runs);
+        runs.truncate(per_node);
+    }
+    out.extend(runs);
+    for c in ch {
+        sibling_runs(c, pos, rng, per_node, out);
+    }
+}
+
+/// Classes `truncation` (prefixes at token boundaries), `token-deleted` (one code token removed) and `element-deleted`
+/// (a run of sibling elements of the parse tree removed) of one well-formed text: the tokens run out, or a terminator
+/// follows, exactly where the grammar requires something. `dense`: every position; else a random handful.
+fn cuts_of(cfg: &FluffConfig, text: &str, rng: &mut Rng, dense: bool) -> Vec<(&'static str, String)> {
+    let tables = Tables::default();
+    let Ok(p) = lex_and_parse(cfg, &tables, text) else { return vec![] };
+    let raws: Vec<String> = p.tokens.iter().map(|t| t.raw().to_string()).collect();
+    let code: Vec<usize> = (0..p.tokens.len()).filter(|&i| p.tokens[i].is_code() && !raws[i].is_empty()).collect();
+    if code.len() < 2 {
+        return vec![];
+    }
+    let mut res: Vec<(&'static str, String)> = vec![];
+    let mut trunc_at: Vec<usize> = code[1..].to_vec();
+    let mut del_at: Vec<usize> = code.clone();
+    let mut runs: Vec<(usize, usize)> = vec![];
+    if let Ok(Some(tree)) = &p.result {
+        let pos: HashMap<u32, usize> = p.tokens.iter().enumerate().map(|(i, t)| (t.id(), i)).collect();
+        sibling_runs(tree, &pos, rng, if dense { 10 } else { 3 }, &mut runs);
+    }
+    runs.sort();
+    runs.dedup();
+    if !dense {
+        rng.shuffle(&mut trunc_at);
+        rng.shuffle(&mut del_at);
+        rng.shuffle(&mut runs);
+        trunc_at.truncate(4);
+        del_at.truncate(3);
+        runs.truncate(8);
+    }
+    for k in trunc_at {
+        res.push(("truncation", raws[..k].concat()));
+        if dense && rng.chance(1, 3) {
+            res.push(("truncation", format!("{};\n", raws[..k].concat().trim_end())));
+        }
+    }
+    for k in del_at {
+        res.push(("token-deleted", format!("{}{}", raws[..k].concat(), raws[k + 1..].concat())));
+    }
+    for (a, b) in runs {
+        res.push(("element-deleted", format!("{}{}", raws[..a].concat(), raws[b..].concat())));
+    }
+    let mut seen = HashSet::new();
+    res.retain(|(_, s)| s != text && seen.insert(s.clone()));
+    res
+}
+
+/// (dialect, text, dense) of the texts that get cut: the greedy-site and clause bases under every dialect, and
+/// (thorough, or `small_corpus`) the small corpus files of the dialect itself.
+fn cut_bases(dialects: &[String], corpus_max: usize) -> Vec<(String, String, bool)> {
+    let mut bases = vec![];
+    for d in dialects {
+        for b in CUT_BASES.iter().chain(GREEDY_BASES.iter()) {
+            bases.push((d.clone(), b.to_string(), true));
+        }
+    }
+    if corpus_max > 0 {
+        for f in corpus().iter().filter(|f| f.text.len() <= corpus_max && dialects.contains(&f.dialect)) {
+            bases.push((f.dialect.clone(), f.text.clone(), false));
+        }
+    }
+    bases
+}
+
+pub fn cut_items(rng: &mut Rng, thorough: bool) -> Vec<Work> {
+    let dialects: Vec<String> = DIALECTS.iter().map(|d| d.to_string()).collect();
+    let mut items = vec![];
+    for (dialect, text, dense) in cut_bases(&dialects, 1500) {
+        if !dense && !thorough && !rng.chance(1, 3) {
+            continue;
+        }
+        items.push(Work { it: Item { cls: "cut-base", dialect, sql: text }, templ: None, expand: Some(dense) });
+    }
+    items
+}
+
+// ---------------------------------------------------------------- templated token streams
+/// (placeholder text, configuration key) of parameter number `n` in `style`
+fn placeholder(style: &str, n: usize) -> (String, String) {
+    match style {
+        "colon" => (format!(":p{}", n), format!("p{}", n)),
+        "dollar" => (format!("${{p{}}}", n), format!("p{}", n)),
+        "pyformat" => (format!("%(p{})s", n), format!("p{}", n)),
+        "ampersand" => (format!("&{{p{}}}", n), format!("p{}", n)),
+        "numeric_colon" => (format!(":{}", n), format!("{}", n)),
+        _ => ("?".to_string(), format!("{}", n)), // question_mark: positional, 1-based
+    }
+}
+const SPAN_STYLES: &[&str] = &["colon", "colon", "dollar", "pyformat", "ampersand", "numeric_colon", "question_mark"];
+
+/// Class `templated-span`: a run of 2..14 tokens of a well-formed text (boundaries from the real lexer) becomes the
+/// value of a placeholder, so the rendered file is the original text and one templated slice is lexed into several
+/// tokens that all carry the source position of the placeholder. Two times in three the run is chosen so that a code
+/// token occurs twice in it (same raw: `x = x`, `1 + 1`, two commas of a list, two brackets ...).
+fn span_templated(cfg: &FluffConfig, dialect: &str, text: &str, rng: &mut Rng, n_variants: usize, out: &mut Vec<Work>) {
+    if !text.is_ascii() {
+        return;
+    }
+    let tables = Tables::default();
+    let Ok((toks, _)) = lex(cfg, &tables, text) else { return };
+    let raws: Vec<String> = toks.iter().map(|t| t.raw().to_string()).collect();
+    if raws.concat() != text {
+        return;
+    }
+    let code: Vec<usize> = (0..toks.len()).filter(|&i| toks[i].is_code() && !raws[i].is_empty()).collect();
+    if code.len() < 3 {
+        return;
+    }
+    // candidate runs [a, b] of code-token positions (inclusive, indices into `code`)
+    let mut plain_runs = vec![];
+    let mut rep_runs = vec![];
+    for a in 0..code.len() {
+        for b in a + 1..code.len().min(a + 9) {
+            let (i, j) = (code[a], code[b]);
+            if j - i > 14 {
+                break;
+            }
+            let mut seen = HashSet::new();
+            let rep = (a..=b).any(|k| !seen.insert(raws[code[k]].to_ascii_uppercase()));
+            if rep { rep_runs.push((i, j + 1)) } else { plain_runs.push((i, j + 1)) }
+        }
+    }
+    for v in 0..n_variants {
+        let style = SPAN_STYLES[rng.below(SPAN_STYLES.len())];
+        let n_ph = if rng.chance(1, 4) { 2 } else { 1 };
+        let mut chosen: Vec<(usize, usize)> = vec![];
+        for _ in 0..n_ph {
+            let pool = if !rep_runs.is_empty() && (plain_runs.is_empty() || rng.chance(2, 3)) { &rep_runs } else { &plain_runs };
+            if pool.is_empty() {
+                continue;
+            }
+            let r = pool[rng.below(pool.len())];
+            if chosen.iter().all(|c| r.1 < c.0 || c.1 < r.0) {
+                chosen.push(r);
+            }
+        }
+        chosen.sort();
+        if chosen.is_empty() {
+            continue;
+        }
+        let mut sql = String::new();
+        let mut params = vec![];
+        let mut at = 0usize;
+        for (n, (i, j)) in chosen.iter().enumerate() {
+            sql.push_str(&raws[at..*i].concat());
+            // a placeholder glued to a word / colon / quote in front of it would not be one
+            if sql.ends_with(|c: char| c.is_ascii_alphanumeric() || matches!(c, '_' | ':' | '\'' | '"' | '`' | '$' | '&' | '%' | '\\' | '@' | '#')) {
+                sql.push(' ');
+            }
+            let (ph, key) = placeholder(style, n + 1);
+            sql.push_str(&ph);
+            params.push((key, raws[*i..*j].concat()));
+            at = *j;
+            if raws.get(at).map_or(false, |r| r.starts_with(|c: char| c.is_ascii_alphanumeric() || matches!(c, '_' | ':' | '(' | '{'))) {
+                sql.push(' ');
+            }
+        }
+        sql.push_str(&raws[at..].concat());
+        let _ = v;
+        out.push(Work { it: Item { cls: "templated-span", dialect: dialect.to_string(), sql }, templ: Some(Templ { style: style.to_string(), regex: None, params, api: true }), expand: None });
+    }
+}
+
+pub fn templated_items(rng: &mut Rng, thorough: bool) -> Vec<Work> {
+    let mut items: Vec<Work> = vec![];
+    let mut cx = Ctx::new();
+    let files = corpus();
+    // the small statements under every dialect, and corpus files in their own dialect
+    for d in DIALECTS {
+        let cfg = cx.cfg(d).clone();
+        for b in CUT_BASES.iter().chain(GREEDY_BASES.iter()) {
+            span_templated(&cfg, d, b, rng, if thorough { 8 } else { 2 }, &mut items);
+        }
+    }
+    for f in files.iter().filter(|f| f.text.len() <= 1500) {
+        if thorough || rng.chance(1, 2) {
+            let cfg = cx.cfg(&f.dialect).clone();
+            span_templated(&cfg, &f.dialect, &f.text, rng, if thorough { 6 } else { 2 }, &mut items);
+        }
+    }
+    // literals of corpus files replaced by placeholders (values `1+1`, `(1)`, padded, multi-line ...; every style,
+    // placeholders glued to identifiers) and synthetic statements with placeholders in chosen syntactic roles (C04's generators)
+    let n_wide = if thorough { 3000 } else { 300 };
+    let (mut made, mut tries) = (0, 0);
+    while made < n_wide && tries < n_wide * 20 {
+        tries += 1;
+        let f = &files[rng.below(files.len())];
+        if f.text.len() > 3000 {
+            continue;
+        }
+        let style = SPAN_STYLES[rng.below(SPAN_STYLES.len())];
+        if let Some((sql, templ)) = crate::c04::templatise(rng, &f.text, style, true) {
+            items.push(Work { it: Item { cls: "templated-literals", dialect: f.dialect.clone(), sql }, templ: Some(templ), expand: None });
+            made += 1;
+        }
+    }
+    let known = sqruff_lib::templaters::placeholder::get_known_styles();
+    let matches = |style: &str, sql: &str| known.get(style).map(|re| re.find_iter(sql).filter(|m| m.is_ok()).count());
+    let n_shapes = if thorough { 6000 } else { 600 };
+    let (mut made, mut tries) = (0, 0);
+    while made < n_shapes && tries < n_shapes * 5 {
+        tries += 1;
+        if let Some(it) = crate::c04::gen_shape(rng, &matches) {
+            items.push(Work { it: Item { cls: "templated-shapes", dialect: it.dialect, sql: it.sql }, templ: it.templ, expand: None });
+            made += 1;
+        }
+    }
+    items
+}
+
+// ---------------------------------------------------------------- watchdog
+/// utime + stime (clock ticks, 100 per second) of a thread of this process; per-thread CPU time does not depend on
+/// how loaded the machine is, wall-clock time does
+fn task_ticks(dir: &str) -> Option<(char, u64)> {
+    let s = std::fs::read_to_string(format!("{}/stat", dir)).ok()?;
+    let rest = &s[s.rfind(')')? + 1..];
+    let f: Vec<&str> = rest.split_whitespace().collect();
+    let state = f.first()?.chars().next()?;
+    Some((state, f.get(11)?.parse::<u64>().ok()? + f.get(12)?.parse::<u64>().ok()?))
+}
+fn own_task_dir() -> Option<String> {
+    std::fs::read_link("/proc/thread-self").ok().map(|p| format!("/proc/{}", p.display()))
+}
+/// CPU seconds one input may take: two orders of magnitude above what the largest corpus file needs
+fn cpu_limit_ticks(w: &Work) -> u64 {
+    let base: u64 = std::env::var("SQV_C02_CPU_LIMIT_S").ok().and_then(|s| s.parse().ok()).unwrap_or(10);
+    (base + (w.it.sql.len() as u64 / 5000) * 10) * 100
+}
+const MAX_HANGS: usize = 3;
+
+struct Slot {
+    task: Option<String>,
+    /// the input being parsed (class, dialect, input object): what is blamed when the worker does not come back
+    current: Option<(&'static str, String, Value)>,
+    /// (item, CPU ticks of the thread when it started the item, wall time of the last observed progress, ticks then)
+    busy: Option<(usize, u64, std::time::Instant, u64)>,
+    abandoned: bool,
+    done: bool,
+}
+
+/// `par_run` with a watchdog: every worker publishes the input it is working on; the calling thread watches the CPU
+/// time each worker has spent on its input. An input over its limit (or whose thread sleeps without progress: a
+/// deadlock) is recorded as a direct failure of the property - the parser returned neither a tree nor a parse error -,
+/// its thread is left behind and a new worker takes over. After `MAX_HANGS` such inputs the rest is skipped.
+fn par_run_watched(out: &mut Out, items: Arc<Vec<Work>>) {
+    let threads = std::env::var("SQV_THREADS").ok().and_then(|s| s.parse().ok()).unwrap_or(16usize).max(1);
+    let n = items.len();
+    let next = Arc::new(AtomicUsize::new(0));
+    let stop = Arc::new(AtomicBool::new(false));
+    let slots: Arc<Mutex<Vec<Slot>>> = Arc::new(Mutex::new(vec![]));
+    let results: Arc<Mutex<Vec<Option<Buf>>>> = Arc::new(Mutex::new((0..n).map(|_| None).collect()));
+    let spawn = |slots: &Arc<Mutex<Vec<Slot>>>| {
+        let id = {
+            let mut g = slots.lock().unwrap();
+            g.push(Slot { task: None, current: None, busy: None, abandoned: false, done: false });
+            g.len() - 1
+        };
+        let (items, next, stop, slots2, results) = (items.clone(), next.clone(), stop.clone(), slots.clone(), results.clone());
+        let r = std::thread::Builder::new().stack_size(16 << 20).spawn(move || {
+            let slots = slots2;
+            let task = own_task_dir();
+            slots.lock().unwrap()[id].task = task.clone();
+            let mut st = Ctx::new();
+            loop {
+                if stop.load(Ordering::SeqCst) {
+                    break;
+                }
+                let i = next.fetch_add(1, Ordering::SeqCst);
+                if i >= n {
+                    break;
+                }
+                let t0 = task.as_deref().and_then(task_ticks).map_or(0, |x| x.1);
+                let mut buf = Buf::default();
+                // every input (also each one derived from a text that is cut) starts its own CPU budget
+                let mut announce = |w: &Work| {
+                    let t = task.as_deref().and_then(task_ticks).map_or(0, |x| x.1);
+                    let mut g = slots.lock().unwrap();
+                    g[id].busy = Some((i, t, std::time::Instant::now(), t));
+                    g[id].current = Some((w.it.cls, w.it.dialect.clone(), w.input_json()));
+                };
+                if let Err(msg) = catch(|| run_one(&mut st, &items[i], &mut buf, &mut announce)) {
+                    buf.direct(items[i].it.cls, false, &format!("c02-harness-panic:{}", short_hash(&items[i].it.sql)), &format!("the harness itself panicked on this input: {}", trunc(&msg, 300)), items[i].input_json());
+                }
+                let t1 = task.as_deref().and_then(task_ticks).map_or(0, |x| x.1);
+                buf.lines.push(json!({"t": "cpu", "ticks": t1.saturating_sub(t0)}));
+                let mut g = slots.lock().unwrap();
+                if g[id].abandoned {
+                    return;
+                }
+                g[id].busy = None;
+                results.lock().unwrap()[i] = Some(buf);
+            }
+            slots.lock().unwrap()[id].done = true;
+        });
+        if r.is_err() {
+            slots.lock().unwrap()[id].done = true;
+        }
+    };
+    for _ in 0..threads.min(n.max(1)) {
+        spawn(&slots);
+    }
+    let quiet = std::time::Duration::from_millis(std::env::var("SQV_HANG_QUIET_MS").ok().and_then(|s| s.parse().ok()).unwrap_or(10_000));
+    let mut hangs = 0usize;
+    let mut stopped_at: Option<std::time::Instant> = None;
+    loop {
+        std::thread::sleep(std::time::Duration::from_millis(50));
+        let mut respawn = 0;
+        {
+            let mut g = slots.lock().unwrap();
+            if g.iter().all(|s| s.done || s.abandoned) {
+                break;
+            }
+            // enough inputs did not return: the workers still busy a few seconds later are left behind as well
+            // (their inputs count as skipped)
+            if stopped_at.map_or(false, |t| t.elapsed() >= std::time::Duration::from_secs(3)) {
+                for s in g.iter_mut() {
+                    s.abandoned = true;
+                }
+                break;
+            }
+            for s in g.iter_mut().filter(|s| !s.done && !s.abandoned) {
+                let (Some(dir), Some((i, t0, last_wall, last_ticks))) = (s.task.clone(), s.busy) else { continue };
+                let Some((state, ticks)) = task_ticks(&dir) else { continue };
+                let now = std::time::Instant::now();
+                if ticks != last_ticks || state != 'S' {
+                    s.busy = Some((i, t0, now, ticks));
+                }
+                let limit = cpu_limit_ticks(&items[i]);
+                let verdict = if ticks.saturating_sub(t0) > limit {
+                    Some(format!("did not return within {} s of CPU time (a parse of this size takes milliseconds)", limit / 100))
+                } else if state == 'S' && ticks == last_ticks && now.duration_since(last_wall) >= quiet {
+                    Some(format!("does not return: its thread blocks for ever (state S, no CPU time used for {} ms)", quiet.as_millis()))
+                } else {
+                    None
+                };
+                if let Some(v) = verdict {
+                    s.abandoned = true;
+                    hangs += 1;
+                    let (cls, dialect, input) = s.current.clone().unwrap_or((items[i].it.cls, items[i].it.dialect.clone(), items[i].input_json()));
+                    let mut buf = Buf::default();
+                    buf.count("inputs", 1);
+                    buf.count("parses_that_did_not_return", 1);
+                    buf.direct(cls, false, &format!("c02-no-termination:{}:{}", dialect, short_hash(&input.to_string())), &format!("lexing + Parser::parse {} - neither a tree nor a parse error", v), input);
+                    results.lock().unwrap()[i] = Some(buf);
+                    if hangs >= MAX_HANGS {
+                        stop.store(true, Ordering::SeqCst);
+                        next.store(n, Ordering::SeqCst);
+                        stopped_at.get_or_insert(now);
+                    } else {
+                        respawn += 1;
+                    }
+                }
+            }
+        }
+        for _ in 0..respawn {
+            spawn(&slots);
+        }
+    }
+    let mut skipped = 0usize;
+    let mut max_ticks = 0u64;
+    let res = std::mem::take(&mut *results.lock().unwrap());
+    for b in res {
+        match b {
+            Some(mut b) => {
+                b.lines.retain(|l| {
+                    if l["t"] == "cpu" {
+                        max_ticks = max_ticks.max(l["ticks"].as_u64().unwrap_or(0));
+                        false
+                    } else {
+                        true
+                    }
+                });
+                out.absorb(b)
+            }
+            None => skipped += 1,
+        }
+    }
+    let mut b = Buf::default();
+    b.count("inputs_skipped_after_parses_that_did_not_return", skipped);
+    b.count("max_cpu_centiseconds_of_one_input", max_ticks as usize);
+    out.absorb(b);
+}
+
+// ---------------------------------------------------------------- cases for the interpreter of the engine
+/// `sqv c02 --flag-cases --dialects a,b,..`: truncated / token-deleted / element-deleted variants of the small
+/// statements (every position) and of small corpus files, and grammar-derived sentences cut right behind a target
+/// node (c03g), each parsed by the real parser; the recorded root match becomes a case for the Gallina interpreter
+/// of the engine over the dialect's dumped grammar (same case format as `sqv pem`; judged by Corr/C02Pem.v).
+fn flag_main(args: &Args) {
     let mut out = Out::new(&args.out);
-    let mut rng = Rng::new(args.seed);
-    let items: Vec<Item> = if let Some(path) = args.flag("--replay-input") {
+    let mut rng = Rng::new(args.seed ^ 0xc02f);
+    let dialects: Vec<String> = args.flag("--dialects").map(|s| s.split(',').map(|x| x.to_string()).collect()).unwrap_or_else(|| vec!["ansi".to_string()]);
+    let mut items: Vec<crate::pem::Item> = vec![];
+    if let Some(path) = args.flag("--replay-input") {
         let v: Value = serde_json::from_str(&std::fs::read_to_string(path).unwrap()).unwrap();
         let v = if v.get("input").is_some() { v["input"].clone() } else { v };
-        vec![Item { cls: "replay", dialect: v["dialect"].as_str().unwrap_or("ansi").to_string(), sql: v["sql"].as_str().unwrap_or("").to_string() }]
+        items.push(crate::pem::Item { dialect: v["dialect"].as_str().unwrap_or("ansi").to_string(), cls: "replay", sql: v["sql"].as_str().unwrap_or("").to_string() });
     } else {
-        let mut v = if args.thorough() { corpus_items(&mut rng, true, 0, 30000) } else { corpus_items(&mut rng, false, 400, 900) };
+        let max_chars = 160usize;
+        let per_dialect = if args.thorough() { 600 } else { 135 };
+        let per_dialect_g = if args.thorough() { 150 } else { 30 };
+        let mut cx = Ctx::new();
+        for d in &dialects {
+            let cfg = cx.cfg(d).clone();
+            let mut pool: Vec<(&'static str, String)> = vec![];
+            for (dialect, text, dense) in cut_bases(std::slice::from_ref(d), max_chars) {
+                pool.extend(cuts_of(&cfg, &text, &mut rng, dense).into_iter().filter(|(_, s)| s.len() <= max_chars));
+                let _ = dialect;
+            }
+            let mut seen = HashSet::new();
+            pool.retain(|(_, s)| seen.insert(s.clone()));
+            rng.shuffle(&mut pool);
+            // the same number from each class
+            let mut taken: HashMap<&'static str, usize> = HashMap::new();
+            let share = per_dialect / 3 + 1;
+            let mut n = 0;
+            for (cls, sql) in pool {
+                let t = taken.entry(cls).or_default();
+                if *t < share && n < per_dialect {
+                    *t += 1;
+                    n += 1;
+                    items.push(crate::pem::Item { dialect: d.clone(), cls, sql });
+                }
+            }
+            // one junk token at a gap of the small statements (an ordinary token, or one no terminal of the dialect accepts)
+            {
+                let (cfg, orc) = cx.parts(d);
+                let junk = orc.junk.clone();
+                let tables = Tables::default();
+                let mut pool: Vec<String> = vec![];
+                for b in CUT_BASES.iter().chain(GREEDY_BASES.iter()) {
+                    let Ok((toks, _)) = lex(cfg, &tables, b) else { continue };
+                    let raws: Vec<String> = toks.iter().map(|t| t.raw().to_string()).collect();
+                    let code: Vec<usize> = (0..toks.len()).filter(|&i| toks[i].is_code() && !raws[i].is_empty()).collect();
+                    for _ in 0..3 {
+                        if code.is_empty() {
+                            break;
+                        }
+                        let g = code[rng.below(code.len())];
+                        let (j, sep) = if !junk.is_empty() && rng.chance(1, 3) { junk[rng.below(junk.len())].clone() } else { (PLAIN_JUNK[rng.below(PLAIN_JUNK.len())].to_string(), " ") };
+                        pool.push(format!("{}{}{}{}", raws[..g].concat(), j, sep, raws[g..].concat()));
+                    }
+                }
+                rng.shuffle(&mut pool);
+                for sql in pool.into_iter().filter(|s| s.len() <= max_chars).take(per_dialect_g) {
+                    items.push(crate::pem::Item { dialect: d.clone(), cls: "gap-junk", sql });
+                }
+            }
+            // grammar-derived: the statement cut right behind the targeted node
+            let gs = c03g::sentences(d);
+            let mut cut: Vec<&c03g::Sentence> = gs.sentences.iter().filter(|s| s.variant == 1 && !s.dangling && s.sql.len() <= max_chars).collect();
+            rng.shuffle(&mut cut);
+            let mut seen = HashSet::new();
+            for s in cut.into_iter().filter(|s| seen.insert(s.sql.clone())).take(per_dialect_g) {
+                items.push(crate::pem::Item { dialect: d.clone(), cls: "grammar-cut", sql: s.sql.clone() });
+            }
+        }
+    }
+    par_run(&mut out, &items, crate::pem::Ctx::new, crate::pem::run_one);
+    out.finish();
+}
+
+pub fn main(args: &Args) {
+    silence_panics();
+    if std::env::args().any(|a| a == "--flag-cases") {
+        return flag_main(args);
+    }
+    let mut out = Out::new(&args.out);
+    let mut rng = Rng::new(args.seed);
+    RUN_SEED.store(args.seed, Ordering::Relaxed);
+    let items: Vec<Work> = if let Some(path) = args.flag("--replay-input") {
+        let v: Value = serde_json::from_str(&std::fs::read_to_string(path).unwrap()).unwrap();
+        let v = if v.get("input").is_some() { v["input"].clone() } else { v };
+        let templ = if v["templ"].is_object() {
+            Some(Templ {
+                style: v["templ"]["style"].as_str().unwrap_or("colon").to_string(),
+                regex: v["templ"]["regex"].as_str().map(|x| x.to_string()),
+                params: v["templ"]["params"].as_array().map(|a| a.iter().map(|p| (p[0].as_str().unwrap_or("").to_string(), p[1].as_str().unwrap_or("").to_string())).collect()).unwrap_or_default(),
+                api: true,
+            })
+        } else {
+            None
+        };
+        vec![Work { it: Item { cls: "replay", dialect: v["dialect"].as_str().unwrap_or("ansi").to_string(), sql: v["sql"].as_str().unwrap_or("").to_string() }, templ, expand: None }]
+    } else {
+        let mut v: Vec<Work> = (if args.thorough() { corpus_items(&mut rng, true, 0, 30000) } else { corpus_items(&mut rng, false, 400, 900) }).into_iter().map(Work::plain).collect();
         let only = args.flag("--only-class");
-        v.extend(gap_items(&mut rng, args.thorough()));
+        v.extend(gap_items(&mut rng, args.thorough()).into_iter().map(Work::plain));
+        v.extend(cut_items(&mut rng, args.thorough()));
+        // last: should a templated stream send the parser into a loop, everything else has been observed by then
+        v.extend(templated_items(&mut rng, args.thorough()));
         if let Some(c) = only {
-            v.retain(|i| i.cls.starts_with(c.as_str()));
+            v.retain(|i| i.it.cls.starts_with(c.as_str()) || (i.expand.is_some() && matches!(c.as_str(), "truncation" | "token-deleted" | "element-deleted")));
         }
         v
     };
-    par_run(&mut out, &items, Ctx::new, run_one);
+    par_run_watched(&mut out, Arc::new(items));
     out.finish();
 }
